@@ -117,7 +117,7 @@ def parallel(ctx, fn, items, nproc=None):
     chunks = [items[i::nproc] for i in range(nproc)]
     # wall budget per stream: the chunks are interleaved (items[i::nproc]), so what is skipped when time is up is a
     # uniform tail of every worker's share, never a particular region of the input space
-    wall = float(os.environ.get('VERIF_STREAM_WALL_S', '1500' if ctx.tier == 'thorough' else '600'))
+    wall = float(os.environ.get('VERIF_STREAM_WALL_S', '900' if ctx.tier == 'thorough' else '600'))
     deadline = time.time() + wall
     args = [(ctx.prop, ctx.tier, ctx.seed, fn.__module__, fn.__name__, ch, i, ctx.boost, deadline) for i, ch in enumerate(chunks) if ch]
     with multiprocessing.get_context('fork').Pool(len(args)) as pool:
